@@ -47,6 +47,56 @@ KL2 = '(AddWithOverflow(%s, 2).0 as usize)' % CEIL[0]
 from .. import rules_i as _I
 
 
+def _norm_len(text):
+    """word-count arithmetic in one normal form: a widening `as usize` of `x (+|-) k` (x a u32 word count of at most 2^27 + 1,
+    k small: no wrap either way) is moved onto x, and nested constant additions / subtractions are folded"""
+    from .. import ctext as CT
+    try:
+        e = CT.parse(text)
+    except CT.ParseError:
+        return text
+
+    def addk(x):
+        # (inner, k) when x is inner (+|-) const through checked arithmetic, else None
+        if x[0] == 'call' and x[1] == 'sel.0' and x[2][0][0] == 'call' and x[2][0][1] in ('AddWithOverflow', 'SubWithOverflow'):
+            a, b = x[2][0][2]
+            if b[0] == 'int':
+                return a, b[1] if x[2][0][1] == 'AddWithOverflow' else -b[1]
+        return None
+
+    def mk(a, k):
+        if k == 0:
+            return a
+        return ('call', 'sel.0', [('call', 'AddWithOverflow' if k > 0 else 'SubWithOverflow', [a, ('int', abs(k))], None)], None)
+
+    def go(x):
+        if x[0] == 'call':
+            x = ('call', x[1], [go(a) for a in x[2]], x[3])
+            ak = addk(x)
+            if ak is not None:
+                inner = addk(ak[0])
+                if inner is not None:
+                    return mk(inner[0], inner[1] + ak[1])
+            return x
+        if x[0] == 'cast':
+            y = go(x[1])
+            ak = addk(y)
+            if ak is not None and x[2] == 'usize' and abs(ak[1]) <= 8:
+                return go(mk(('cast', ak[0], 'usize'), ak[1]))
+            return ('cast', y, x[2])
+        if x[0] == 'aggr':
+            return ('aggr', x[1], [go(a) for a in x[2]])
+        if x[0] == 'idx':
+            return ('idx', go(x[1]), go(x[2]), x[3])
+        if x[0] == 'phi':
+            return ('phi', [go(a) for a in x[1]])
+        return x
+    try:
+        return CT.show(go(e))
+    except Exception:
+        return text
+
+
 def run(cx):
     cx.not_decided.append('equality with the 3GPP keystream / MAC (functional: depends on ZUC, C08)')
     # ------------------------------------------------------------ EEA3
@@ -135,8 +185,10 @@ def run(cx):
         P = Prov(fn, cx.F); cn = Canon(fn, P)
         gk = FR.calls_of(fn, 'generate_keystream')
         got = FR.arg_canon(fn, P, cn, gk[0], 1) if len(gk) == 1 else ''
-        CE = next((c for c in CEIL if got == '(AddWithOverflow(%s, 2).0 as usize)' % c), CEIL[0])
+        CE = next((c for c in CEIL if _norm_len(got) == _norm_len('(AddWithOverflow(%s, 2).0 as usize)' % c)), CEIL[0])
         KL2 = '(AddWithOverflow(%s, 2).0 as usize)' % CE
+        if _norm_len(got) == _norm_len(KL2):
+            KL2 = got            # the same count with the widening cast placed before the `+ 2`
         cx.add('I-EIA', 'gen_mac/keylen', got == KL2, 'keystream length is ceil(LENGTH/32) + 2 words: %s' % got, fn.loc())
         KS = 'generate_keystream($self.zuc, %s)' % KL2
         I = 'each(Range::Range{0, ($ilen as usize)})'
@@ -146,6 +198,8 @@ def run(cx):
         # the accumulator is identified by its role, not by its name
         import re as _re3
         rets = [_re3.sub(r'var:\w+@loop', 'var:t@loop', r_) for r_ in rets]
+        if rets != [want] and [_norm_len(r_) for r_ in rets] == [_norm_len(want)]:
+            rets = [want]        # index 32*(L-1) written as 32*(ceil + 1) in usize
         cx.add('I-EIA', 'gen_mac/final', rets == [want], 'MAC = T xor z[LENGTH] xor z[32*(L-1)], T = xor of z[i] over the processed bits: %s' % [FR.short(r, 200) for r in rets], fn.loc())
         sw = [(p, cn) for _, p, _, _ in G.bool_switches(fn, P)]
         bit = 'BitAnd($m[Shr(%s, 5)], Shl(1, SubWithOverflow(31, BitAnd(%s, 31)).0))' % (I, I)
